@@ -518,6 +518,35 @@ pub fn run(args: &Args) -> i32 {
         }
         judge(run_sim, &banks, 1, None, json!({"fault": "two banks for wire C090", "samples": [ns[d[0] as usize], ns[d[1] as usize]], "swapped": d[2] == 1}), loc);
     });
+    // a duplicate on every wire and on every chip (a "seen" set that does not cover the whole detector)
+    rep.run("duplicate-on-every-element", (256 + 71 * 4) * 2, 120, true, "every one of the 256 wires: two full banks with different samples; every (board, chip) of the simulation run: two messages in different chunk groups whose packets name the same chip (same pads, different samples); both orders: the event is rejected", |idx, loc| {
+        let (k, swapped) = (idx / 2, idx % 2 == 1);
+        let mut banks: Banks = vec![("ATAT".into(), trg_packet(77))];
+        let what;
+        if k < 256 {
+            let (board, ch) = (A16_BOARDS[(k / 32) as usize].0, (k % 32) as u8);
+            banks.push((wire_bank_name(board, ch), wire_packet(board, ch, &wire_samples(ch, WIRE_NS, 0))));
+            banks.push((wire_bank_name(board, ch), wire_packet(board, ch, &wire_samples(ch, WIRE_NS, 4))));
+            what = json!({"fault": "two banks for one wire", "board": board, "channel": ch, "swapped": swapped});
+        } else {
+            let (bi, chip) = (((k - 256) / 4) as usize, ((k - 256) % 4) as u8);
+            let board = PWB_BOARDS[bi].0;
+            if pad_slot(run_sim, board, chip, 1).is_none() {
+                return; // board not installed in the simulation run: rejected for another reason
+            }
+            for (j, other) in [chip, (chip + 1) % 4].into_iter().enumerate() {
+                let chans: Vec<(u16, Vec<i16>)> = (1..=79u16).map(|ro| (ro, pad_samples(ro, PAD_NS as usize, j as u64))).collect();
+                // chunk header names `other`, the packet inside names `chip`
+                banks.extend(pwb_banks(board, other, &pwb_payload(board, chip, PAD_NS, &chans), 65535));
+            }
+            what = json!({"fault": "two messages for one chip", "board": board, "chip": chip, "swapped": swapped});
+        }
+        if swapped {
+            let n = banks.len();
+            banks.swap(1, n - 1);
+        }
+        judge(run_sim, &banks, 77, None, what, loc);
+    });
     // ignored banks and reorderings do not change anything
     let extra: Banks = vec![("B09A".into(), vec![9; 40]), ("TRBA".into(), vec![]), ("MCVX".into(), vec![1; 100]), ("B100".into(), vec![])];
     rep.run("ignored-banks", (nb + 1) * extra.len() as u64 + nb, 120, true, "each ignored bank (BV, TRB3, MC vertex with arbitrary bytes) inserted at every position; every rotation of the base bank list: identical slots", |idx, loc| {
